@@ -486,6 +486,11 @@ def g_special_programs(ctx, rng, i):
         v = Tensor(np.array(gen.coords(rng, (n,), 100, "int"), dtype=np.int8), covariant=True)
         w = Tensor(np.array(gen.coords(rng, (n,), 100, "int"), dtype=np.int8), covariant=False)
         TensorDiagram((v, w)).calculate()
+        # boolean tensors are numerical tensors with entries 0 / 1: a contraction counts, it does not OR
+        bv = Tensor(rng.random(n) < 0.7, covariant=True)
+        bw = Tensor(rng.random(n) < 0.7, covariant=False)
+        TensorDiagram((bv, bw)).calculate()
+        TensorDiagram((bv, Tensor(rng.random((n, n)) < 0.6, covariant=[1]))).calculate()
     else:
         dim = 3
         a = Tensor(gen.coords(rng, (dim, dim), 3, "int"), covariant=[0, 1])
